@@ -97,3 +97,11 @@ claim('C13',
       "_fsign is analysed the same way (total, never 0) and a taint analysis shows every field-dependent divisor in the 9 TVD builders goes through it.",
       "Trusted: the reference table of published forms (citations in the checker); exact arithmetic. Overflow beyond 1e100 not decided.",
       "AST -> exact piecewise-rational normal form (Sturm root counting) compared with a reference table; taint analysis of divisors", "DESIGN.md 5 C13")
+
+claim('C17',
+      "Static units analysis over the extracted expressions: every stencil coefficient, right-hand side, ghost value, boundary row, mean, gradient, "
+      "divergence and cell volume of all 9 classes (generic and boundary-adjacent cells) is assigned dimensions atom by atom (L/T/K/X roles from the "
+      "property statement) and must be homogeneous, of the dimension its role demands, and of degree one in its coefficient field; limiter "
+      "arguments dimensionless; _fsign is checked by a syntactic units walk for literal thresholds against dimensional quantities.",
+      "Trusted: the role table (DESIGN.md app. B); homogeneity of all coefficients implies the scaling of the solved values through C04.",
+      "units (dimension) abstract domain evaluated on statically extracted stencil expressions", "DESIGN.md 5 C17")
